@@ -121,11 +121,12 @@ CHECKS["C07"] = {
 
 def _c09_jobs(tier):
     q = tier == "quick"
-    jobs = [("c09_refcount", ["--mode", "ref", "--threads", 2, "--maxlen", 5, "--bound", 4 if q else 8, "--deadline", 70 if q else 800]),
-            ("c09_refcount", ["--mode", "ref", "--threads", 3, "--maxlen", 3 if q else 5, "--bound", 3 if q else 4, "--deadline", 70 if q else 800])]
+    dl = 70 if q else 800
+    jobs = [("c09_refcount", ["--mode", "ref", "--threads", 2, "--maxlen", 5, "--bound", 8 if q else 12, "--deadline", dl]),
+            ("c09_refcount", ["--mode", "ref", "--threads", 3, "--maxlen", 3 if q else 5, "--bound", 4 if q else 5, "--deadline", dl])]
     for pool in (0, 1):
-        jobs.append(("c09_refcount", ["--mode", "ubuf", "--pool", pool, "--threads", 2, "--maxlen", 3, "--bound", 3 if q else 5, "--deadline", 70 if q else 800]))
-        jobs.append(("c09_refcount", ["--mode", "ubuf", "--pool", pool, "--threads", 3, "--maxlen", 3 if not q else 1, "--bound", 2 if q else 3, "--deadline", 70 if q else 800]))
+        jobs.append(("c09_refcount", ["--mode", "ubuf", "--pool", pool, "--threads", 2, "--maxlen", 3, "--bound", 4 if q else 6, "--deadline", dl]))
+        jobs.append(("c09_refcount", ["--mode", "ubuf", "--pool", pool, "--threads", 3, "--maxlen", 1 if q else 3, "--bound", 3, "--deadline", dl]))
     return jobs
 
 CHECKS["C09"] = {
@@ -135,32 +136,34 @@ CHECKS["C09"] = {
     "level_note": "Sequentially consistent interleavings; programs up to 5 ops per thread; 3 threads at most.",
     "jobs": {"quick": _c09_jobs("quick"), "thorough": _c09_jobs("thorough")},
     "rule": "one execution = one complete schedule; every execution has >= 2 threads racing on the same counter, so all are counted non-trivial; states = scheduling points visited",
-    "bounds": {"quick": "ref: 2 threads x <=5 ops bound 4, 3 threads x <=3 ops bound 3; ubuf: 2 threads x <=3 ops bound 3, 3 threads x 1 op bound 2; pool 0/1",
-               "thorough": "ref: 2 threads bound 8 (unbounded in effect), 3 threads x <=5 ops bound 4; ubuf: 2 threads bound 5, 3 threads x <=3 ops bound 3"},
+    "bounds": {"quick": "ref: 2 threads x <=5 ops bound 8, 3 threads x <=3 ops bound 4; ubuf: 2 threads x <=3 ops bound 4, 3 threads x 1 op bound 3; pool 0/1",
+               "thorough": "ref: 2 threads bound 12, 3 threads x <=5 ops bound 5; ubuf: 2 threads bound 6, 3 threads x <=3 ops bound 3"},
     "assumptions": DEFAULT_ASSUME + ["scheduling points: every uatomic_* op and plain ring access"],
 }
 
 def _c08_jobs(tier):
     q = tier == "quick"
     dl = 70 if q else 800
+    d = 0 if q else 1   # thorough: one or two preemptions deeper
     jobs = []
     def uq(L, P, C, E, style, gran, bound):
         jobs.append(("c08_wakeup", ["--mode", "uqueue", "--len", L, "--prod", P, "--cons", C, "--elems", E, "--style", style,
                                     "--gran", gran, "--bound", bound, "--deadline", dl]))
     for style in ("once", "drain"):
-        uq(1, 1, 1, 2, style, "fine", 3 if q else 4)
-        uq(1, 2, 1, 1, style, "fine", 2 if q else 3)
-        uq(1, 2, 1, 1, style, "coarse", 4 if q else 6)
-        uq(2, 2, 1, 2, style, "coarse", 3 if q else 4)
-        uq(1, 1, 2, 2, style, "coarse", 3 if q else 5)
+        uq(1, 1, 1, 2, style, "fine", 4 + d)
+        uq(1, 2, 1, 1, style, "fine", 3 + d)
+        uq(1, 2, 1, 1, style, "coarse", 6 + 2 * d)
+        uq(2, 2, 1, 2, style, "coarse", 4 + d)
+        uq(1, 1, 2, 2, style, "coarse", 5 + d)
+        uq(2, 2, 2, 1, style, "coarse", 3 + d)
+        uq(1, 2, 2, 1, style, "coarse", 4 + d)
+        uq(2, 1, 1, 3, style, "fine", 3 + d)
         if not q:
-            uq(2, 2, 2, 1, style, "coarse", 3)
-            uq(1, 2, 2, 1, style, "coarse", 4)
-            uq(2, 1, 1, 3, style, "fine", 3)
-    jobs.append(("c08_wakeup", ["--mode", "udeal", "--contenders", 2, "--rounds", 2, "--bound", 4 if q else 7, "--deadline", dl]))
-    jobs.append(("c08_wakeup", ["--mode", "udeal", "--contenders", 3, "--rounds", 1, "--bound", 3 if q else 4, "--deadline", dl]))
-    if not q:
-        jobs.append(("c08_wakeup", ["--mode", "udeal", "--contenders", 3, "--rounds", 2, "--bound", 3, "--deadline", dl]))
+            uq(3, 2, 1, 2, style, "coarse", 4)
+            uq(2, 2, 1, 2, style, "fine", 3)
+    jobs.append(("c08_wakeup", ["--mode", "udeal", "--contenders", 2, "--rounds", 2, "--bound", 7 + 3 * d, "--deadline", dl]))
+    jobs.append(("c08_wakeup", ["--mode", "udeal", "--contenders", 3, "--rounds", 1, "--bound", 4 + d, "--deadline", dl]))
+    jobs.append(("c08_wakeup", ["--mode", "udeal", "--contenders", 3, "--rounds", 2, "--bound", 3 + d, "--deadline", dl]))
     return jobs
 
 CHECKS["C08"] = {
@@ -170,7 +173,7 @@ CHECKS["C08"] = {
     "level_note": "Simulated eventfd (Linux non-semaphore semantics). Coarse tier treats FIFO push/pop as atomic (justified by C07). Configurations: lengths 1-2, <=2 producers, <=2 consumers.",
     "jobs": {"quick": _c08_jobs("quick"), "thorough": _c08_jobs("thorough")},
     "rule": "one execution = one complete schedule; non-trivial = executions in which at least one push failed / pop starved / grab was refused (somebody went to sleep); states = scheduling points visited",
-    "bounds": {"quick": "uqueue L=1: 1P+1C x2 elems fine k<=3, 2P+1C fine k<=2 and coarse k<=4, 1P+2C coarse k<=3; L=2 2P+1C coarse k<=3; both consumer styles; udeal 2 contenders x2 rounds k<=4, 3 contenders k<=3",
-               "thorough": "same configurations one or two preemptions deeper, plus 2P+2C and 3 elements"},
+    "bounds": {"quick": "uqueue L=1: 1P+1C x2 elems fine k<=4, 2P+1C fine k<=3 / coarse k<=6, 1P+2C coarse k<=5, 2P+2C coarse k<=4; L=2: 2P+1C x2 coarse k<=4, 2P+2C coarse k<=3, 1P+1C x3 fine k<=3; both consumer styles; udeal 2 contenders x2 rounds k<=7, 3 contenders k<=4, 3x2 rounds k<=3",
+               "thorough": "same configurations one or two preemptions deeper, plus L=3 and L=2 at fine granularity"},
     "assumptions": DEFAULT_ASSUME + ["eventfd simulated in harness memory; watchers are level-triggered as with libev"],
 }
